@@ -191,6 +191,11 @@ def hCheckpointReduce : Handler := handler fun
     pure (.list (r.map fun (k, ins) => .list [k.toSExp, .list (ins.map Obj.toSExp)]))
   | _ => none
 
+/-- `(fuse_ok g h S req)` -/
+def hFuseOK : Handler := handler fun
+  | [g, h, s, r] => do pure (SExp.ofBool (fuseOK (← lgraph? g) (← lgraph? h) (← objs? s) (← objs? r)))
+  | _ => none
+
 def hExecGraph : Handler := handler fun
   | [g, cache] => do
     match executeGraph (← ngraph? g) (envOf (← lgraph? cache)) with
@@ -208,7 +213,7 @@ def table : List (String × Handler) :=
    ("exec_graph", TermDrv.hExecGraph), ("legacy_refs", TermDrv.hLegacyRefs), ("alias_init", TermDrv.hAliasInit),
    ("task_roundtrip", TermDrv.hTaskRoundtrip), ("container_roundtrip", TermDrv.hContainerRoundtrip),
    ("slots", TermDrv.hSlots),
-   ("subs", TermDrv.hSubs), ("cull", TermDrv.hCull),
+   ("subs", TermDrv.hSubs), ("cull", TermDrv.hCull), ("fuse_ok", TermDrv.hFuseOK),
    ("clone_legacy", TermDrv.hCloneLegacy), ("clone_spec", TermDrv.hCloneSpec),
    ("checkpoint_reduce", TermDrv.hCheckpointReduce)]
 
